@@ -260,16 +260,19 @@ theorem no_accessor_no_log (w : World Val) (c : Cfg) (ops : List (Op Val))
 
 /-- **Getter result checked.** On a spec class with the attribute managed, a
 getter result is returned only after `prepare_attr_value` and only if it
-conforms to the annotation; a non-conforming one raises ValueError. -/
+conforms to the annotation; a non-conforming one raises ValueError; an
+exception raised while preparing (the attribute's preparer) is what the read raises. -/
 theorem getter_result_checked (w : World Val) (c : Cfg) (n : Nat)
     (hs : c.onSpecClass = true) (hm : c.managed = true) (hg : c.hasGetter = true) :
     (∀ v, getterChecked w c n = .val v →
-        w.conforms v = true ∧ ∃ raw, w.getter n = .ok raw ∧ v = prepareAttrValue w c raw) ∧
-    (∀ raw, w.getter n = .ok raw → w.conforms (prepareAttrValue w c raw) = false →
+        w.conforms v = true ∧ ∃ raw, w.getter n = .ok raw ∧ prepareAttrValue w c raw = .ok v) ∧
+    (∀ raw v, w.getter n = .ok raw → prepareAttrValue w c raw = .ok v → w.conforms v = false →
         getterChecked w c n = .err .valueError) ∧
-    (∀ raw, w.getter n = .ok raw → w.conforms (prepareAttrValue w c raw) = true →
-        getterChecked w c n = .val (prepareAttrValue w c raw)) := by
-  refine ⟨?_, ?_, ?_⟩
+    (∀ raw v, w.getter n = .ok raw → prepareAttrValue w c raw = .ok v → w.conforms v = true →
+        getterChecked w c n = .val v) ∧
+    (∀ raw e, w.getter n = .ok raw → prepareAttrValue w c raw = .error e →
+        getterChecked w c n = .err e) := by
+  refine ⟨?_, ?_, ?_, ?_⟩
   · intro v hv
     refine ⟨getterChecked_conforms hs hm hv, ?_⟩
     unfold getterChecked at hv
@@ -278,23 +281,83 @@ theorem getter_result_checked (w : World Val) (c : Cfg) (n : Nat)
     | error e => simp only [hget] at hv; split at hv <;> cases hv
     | ok raw =>
       simp only [hget, hs, hm, Bool.and_self, if_true] at hv
-      split at hv
-      · cases hv; exact ⟨raw, rfl, rfl⟩
-      · cases hv
-  · intro raw hget hc
-    simp [getterChecked, hg, hget, hs, hm, hc]
-  · intro raw hget hc
-    simp [getterChecked, hg, hget, hs, hm, hc]
+      cases hp : prepareAttrValue w c raw with
+      | error e => simp only [hp] at hv; cases hv
+      | ok v' =>
+        simp only [hp] at hv
+        split at hv
+        · cases hv; exact ⟨raw, rfl, hp⟩
+        · cases hv
+  · intro raw v hget hp hc
+    simp [getterChecked, hg, hget, hs, hm, hp, hc]
+  · intro raw v hget hp hc
+    simp [getterChecked, hg, hget, hs, hm, hp, hc]
+  · intro raw e hget hp
+    simp [getterChecked, hg, hget, hs, hm, hp]
 
 /-- The preparer is applied exactly when the attribute has one (and the value
-is a real value, not a sentinel). -/
+is a real value, not a sentinel); what it raises is raised. -/
 theorem prepare_uses_preparer (w : World Val) (c : Cfg) (v : Val)
     (h1 : v ≠ w.unchanged) (h2 : v ≠ w.missing) (h3 : v ≠ w.empty) :
-    (c.hasPreparer = true → w.preparer v ≠ w.missing → prepareAttrValue w c v = w.preparer v) ∧
-    (c.hasPreparer = false → prepareAttrValue w c v = v) := by
-  constructor
-  · intro hp hne; simp [prepareAttrValue, h1, h2, h3, hp, hne]
+    (c.hasPreparer = true → ∀ v', w.preparer v = .ok v' → v' ≠ w.missing →
+        prepareAttrValue w c v = .ok v') ∧
+    (c.hasPreparer = true → ∀ e, w.preparer v = .error e → prepareAttrValue w c v = .error e) ∧
+    (c.hasPreparer = false → prepareAttrValue w c v = .ok v) := by
+  refine ⟨?_, ?_, ?_⟩
+  · intro hp v' hv' hne; simp [prepareAttrValue, h1, h2, h3, hp, hv', hne]
+  · intro hp e he; simp [prepareAttrValue, h1, h2, h3, hp, he]
   · intro hp; simp [prepareAttrValue, h1, h2, h3, hp]
+
+/-- **A failing operation changes nothing.** Whatever raises — the getter, the
+attribute's preparer, the type check of the getter result, the spec-class
+assignment layer (preparer / type check of the assigned value), `__set__` on a
+property that is neither overridable nor has a setter, `__delete__` with nothing
+stored — the slot, the underlying state and the accessor log are exactly what
+they were. For ANY state. In particular a failed read never leaves a value in
+the cache slot. -/
+theorem failed_op_changes_nothing (w : World Val) (c : Cfg) (s : St Val) (op : Op Val) :
+    ((∃ e, (step w c s op).2 = .err e) ∨ (step w c s op).2 = .nested) → (step w c s op).1 = s := by
+  intro h
+  apply step_failed_unchanged
+  · intro v hv; rcases h with ⟨e, he⟩ | he <;> rw [hv] at he <;> cases he
+  · intro hd; rcases h with ⟨e, he⟩ | he <;> rw [hd] at he <;> cases he
+
+/-- …so after a failed read the next read starts from scratch: with the
+underlying state repaired (any number of `bump`s) it is again a function of the
+ghost override/cache and the getter on current state, and what was computed by
+the failed attempt is nowhere. Stated over whole histories. -/
+theorem failed_read_leaves_no_trace (w : World Val) (c : Cfg) (ops : List (Op Val)) (e : Err)
+    (h : (pget w c (run w c St.init ops).1).2 = .err e) :
+    (pget w c (run w c St.init ops).1).1 = (run w c St.init ops).1 ∧
+    (Spec.read w c (Spec.run w c Ghost.init ops).1).1 = (Spec.run w c Ghost.init ops).1 := by
+  have hinv := (protocol w c ops).2
+  have hs := step_refines hinv .read
+  constructor
+  · exact failed_op_changes_nothing w c _ .read (Or.inl ⟨e, h⟩)
+  · have ho : (Spec.read w c (Spec.run w c Ghost.init ops).1).2 = .err e := by
+      have := hs.1; simp only [step, Spec.step] at this; rw [← this]; exact h
+    generalize (Spec.run w c Ghost.init ops).1 = g at ho ⊢
+    unfold Spec.read at ho ⊢
+    cases hov : g.override with
+    | some v => rfl
+    | none =>
+      cases hca : g.cached with
+      | some v => rfl
+      | none =>
+        simp only [hov, hca] at ho ⊢
+        cases hg : getterChecked w c g.under with
+        | val v => simp [hg] at ho
+        | done => rfl
+        | err e' => rfl
+        | nested => rfl
+
+/-- A preparer that raises while an assignment is being delivered on a managed
+attribute: the assignment raises that exception and nothing changes. -/
+theorem assign_preparer_error (w : World Val) (c : Cfg) (s : St Val) (v : Val) (e : Err)
+    (hs : c.onSpecClass = true) (hm : c.managed = true)
+    (hp : prepareAttrValue w c v = .error e) :
+    assign w c s v = (s, .err e) := by
+  simp [assign, hs, hm, hp]
 
 /-- **Every value read conforms** on a managed spec-class attribute — override,
 cached or fresh — over any operation sequence. -/
@@ -302,6 +365,124 @@ theorem reads_conform (w : World Val) (c : Cfg) (ops : List (Op Val))
     (hs : c.onSpecClass = true) (hm : c.managed = true) :
     ∀ v, Out.val v ∈ (run w c St.init ops).2 → w.conforms v = true :=
   run_vals_conform hs hm ops (inv_init w c)
+
+/-! ## Where the property is declared (inheritance × property-backed attributes) -/
+
+/-- **Managed means: some spec class of the chain annotates it.** Which class of
+the inheritance chain of `type(instance)` declares the descriptor (a plain mixin
+above, an un-annotating spec parent, the managing class itself, a subclass
+below) plays no role. -/
+theorem resolve_managed_iff (l : List ClassDesc) :
+    (resolve l).managed = l.any (fun k => k.spec && k.annotates) := by
+  simp [resolve, resolveFrom_managed, Resolved.none]
+
+/-- The instance is a spec-class instance iff some class of the chain is decorated. -/
+theorem resolve_onSpec_iff (l : List ClassDesc) :
+    (resolve l).onSpecClass = l.any (fun k => k.spec) := by
+  simp [resolve, resolveFrom_onSpec, Resolved.none]
+
+/-- Moving the declaration(s) of the descriptor around in the chain changes
+neither whether the instance is a spec-class instance nor whether the attribute
+is managed. -/
+theorem resolve_declares_irrelevant (l : List ClassDesc) (f : ClassDesc → Bool) :
+    (resolve (l.map fun k => { k with declares := f k })).managed = (resolve l).managed ∧
+    (resolve (l.map fun k => { k with declares := f k })).onSpecClass = (resolve l).onSpecClass := by
+  simp [resolve_managed_iff, resolve_onSpec_iff, List.any_map, Function.comp_def]
+
+/-- A preparer is in effect only on a managed attribute and only if some class
+of the chain defines `_prepare_x`; when `type(instance)` itself is a spec class
+annotating the attribute, it is in effect iff any class of the chain defines one. -/
+theorem resolve_preparer (l : List ClassDesc) :
+    ((resolve l).hasPreparer = true → (resolve l).managed = true ∧ l.any (fun k => k.prep) = true) ∧
+    (∀ k, k.spec = true → k.annotates = true →
+        (resolve (l ++ [k])).hasPreparer = (l ++ [k]).any (fun k => k.prep)) := by
+  constructor
+  · intro h
+    have := resolveFrom_hasPreparer l (Resolved.none, false) (by simp [Resolved.none]) h
+    refine ⟨this.2, ?_⟩
+    have h2 := this.1
+    rw [resolveFrom_prepVisible] at h2
+    simpa using h2
+  · intro k hs ha
+    simp only [resolve, resolveFrom_append]
+    have hpv := resolveFrom_prepVisible l (Resolved.none, false)
+    simp only [resolveFrom, List.foldl_cons, List.foldl_nil, resolveStep, hs, ha, Bool.true_or, if_true]
+    simp only [resolveFrom] at hpv
+    rw [hpv]
+    simp [List.any_append]
+
+/-- **Inherited properties are checked.** Whatever the options and wherever in
+the chain the descriptor is declared: if some spec class of the chain of
+`type(instance)` annotates the attribute, every value read over any operation
+sequence conforms to the annotation, and a returned getter result is the
+prepared one. -/
+theorem inherited_reads_conform (w : World Val) (o : Opts) (l : List ClassDesc)
+    (h : l.any (fun k => k.spec && k.annotates) = true) (ops : List (Op Val)) :
+    ∀ v, Out.val v ∈ (run w (layoutCfg o l) St.init ops).2 → w.conforms v = true := by
+  have hm : (layoutCfg o l).managed = true := by simp [layoutCfg, cfgOf, resolve_managed_iff, h]
+  have hs : (layoutCfg o l).onSpecClass = true := by
+    simp only [layoutCfg, cfgOf, resolve_onSpec_iff]
+    simp only [List.any_eq_true, Bool.and_eq_true] at h ⊢
+    obtain ⟨k, hk, hk1, _⟩ := h
+    exact ⟨k, hk, hk1⟩
+  exact reads_conform w _ ops hs hm
+
+theorem inherited_getter_result_checked (w : World Val) (o : Opts) (l : List ClassDesc) (n : Nat)
+    (h : l.any (fun k => k.spec && k.annotates) = true) (hg : o.hasGetter = true) :
+    (∀ v, getterChecked w (layoutCfg o l) n = .val v →
+        w.conforms v = true ∧
+          ∃ raw, w.getter n = .ok raw ∧ prepareAttrValue w (layoutCfg o l) raw = .ok v) := by
+  have hm : (layoutCfg o l).managed = true := by simp [layoutCfg, cfgOf, resolve_managed_iff, h]
+  have hs : (layoutCfg o l).onSpecClass = true := by
+    simp only [layoutCfg, cfgOf, resolve_onSpec_iff]
+    simp only [List.any_eq_true, Bool.and_eq_true] at h ⊢
+    obtain ⟨k, hk, hk1, _⟩ := h
+    exact ⟨k, hk, hk1⟩
+  exact (getter_result_checked w _ n hs hm (by simpa [layoutCfg, cfgOf] using hg)).1
+
+/-- Multiple inheritance degenerates correctly: with no right-hand base the
+join class is an ordinary link of the chain. -/
+theorem resolveMI_nil_right (L : List ClassDesc) (leaf : ClassDesc) (tail : List ClassDesc) :
+    resolveMI L [] leaf tail = resolve (L ++ leaf :: tail) := by
+  have hwf := resolveFrom_wf L _ walkWF_init
+  simp only [resolveMI, resolve, resolveFrom_append]
+  have : resolveFrom (Resolved.none, false) ([] : List ClassDesc) = (Resolved.none, false) := rfl
+  rw [this, joinBases_none _ _ hwf]
+  rfl
+
+/-- **Mixins.** When the class joining two base chains is a spec class, the
+attribute is managed on the instances of it (and of everything below) iff some
+spec class anywhere in the hierarchy annotates it — in the left chain, in the
+right chain, the join class or below — again wherever the descriptor is declared. -/
+theorem resolveMI_managed_iff (L R : List ClassDesc) (leaf : ClassDesc) (tail : List ClassDesc)
+    (hl : leaf.spec = true) :
+    (resolveMI L R leaf tail).managed = (L ++ R ++ leaf :: tail).any (fun k => k.spec && k.annotates) := by
+  simp only [resolveMI, resolveFrom_managed, joinBases, hl, if_true, resolveStep_managed,
+    List.any_append, List.any_cons, Resolved.none, Bool.false_or, Bool.true_and, Bool.or_assoc]
+
+theorem mi_inherited_reads_conform (w : World Val) (o : Opts) (L R : List ClassDesc) (leaf : ClassDesc)
+    (tail : List ClassDesc) (hl : leaf.spec = true)
+    (h : (L ++ R ++ leaf :: tail).any (fun k => k.spec && k.annotates) = true) (ops : List (Op Val)) :
+    ∀ v, Out.val v ∈ (run w (cfgOf o (resolveMI L R leaf tail)) St.init ops).2 → w.conforms v = true := by
+  have hm : (cfgOf o (resolveMI L R leaf tail)).managed = true := by
+    simp only [cfgOf, resolveMI_managed_iff L R leaf tail hl]; exact h
+  have hs : (cfgOf o (resolveMI L R leaf tail)).onSpecClass = true := by
+    have hwf := resolveFrom_wf tail _ (by
+      show WalkWF (joinBases (resolveFrom (Resolved.none, false) L) (resolveFrom (Resolved.none, false) R) leaf)
+      unfold joinBases
+      apply resolveStep_wf
+      have ha := resolveFrom_wf L _ walkWF_init
+      have hb := resolveFrom_wf R _ walkWF_init
+      simp only [hl, if_true]
+      revert ha hb
+      generalize resolveFrom (Resolved.none, false) L = a
+      generalize resolveFrom (Resolved.none, false) R = b
+      obtain ⟨⟨os, m, hp⟩, pv⟩ := a
+      obtain ⟨⟨os', m', hp'⟩, pv'⟩ := b
+      cases os <;> cases m <;> cases hp <;> cases pv <;> cases os' <;> cases m' <;> cases hp' <;> cases pv' <;>
+        simp [WalkWF])
+    exact hwf.1 hm
+  exact reads_conform w _ ops hs hm
 
 /-! ## classproperty -/
 
@@ -532,7 +713,7 @@ section Examples
 /-- A concrete world over `Int`: the getter returns `10 + n`; the preparer adds
 1000; negative numbers do not conform; sentinels are -1, -2, -3. -/
 def exW : World Int :=
-  { getter := fun n => .ok (10 + n), preparer := fun v => v + 1000,
+  { getter := fun n => .ok (10 + n), preparer := fun v => .ok (v + 1000),
     conforms := fun v => decide (0 ≤ v), construct := 0, missing := -1, empty := -2, unchanged := -3 }
 
 def exC (ov ca fs fd : Bool) : Cfg :=
@@ -562,6 +743,41 @@ example : (run exW (exC true false true true) St.init [.assign 5, .delete, .read
 -- getter_result_checked: a non-conforming getter result raises ValueError
 example : getterChecked { exW with getter := fun _ => .ok (-5000) } (exC true true false false) 0 =
     .err .valueError := by decide
+
+-- a preparer that raises on the first state and works afterwards: the failed read leaves nothing behind,
+-- the next read (state repaired) is the prepared getter result, which is then cached
+def exWr : World Int :=
+  { exW with preparer := fun v => if v = 10 then .error .valueError else .ok (v + 1000) }
+
+example : (run exWr (exC false true false false) St.init [.read, .read, .delete, .bump, .read, .bump, .read]) =
+    (⟨some 1011, 2, []⟩,
+     [.err .valueError, .err .valueError, .err .attributeError, .done, .val 1011, .done, .val 1011]) := by
+  decide
+
+-- …and an assignment whose preparation raises is rejected with that exception
+example : (run exWr (exC true false false false) St.init [.assign 10, .read, .assign 11, .bump, .read]).2 =
+    [.err .valueError, .err .valueError, .done, .done, .val 1011] := by decide
+
+-- layouts: a property declared on a plain mixin and managed (with a preparer) by the spec class below;
+-- declared un-annotated on a spec parent and annotated by the spec child; declared on the managing class
+-- and read through a plain subclass; and a preparer defined only BELOW the class that built the attribute spec
+def mixin : ClassDesc := ⟨false, true, false, false⟩
+example : resolve [mixin, ⟨true, false, true, true⟩] = ⟨true, true, true⟩ := by decide
+example : resolve [⟨true, true, false, false⟩, ⟨true, false, true, true⟩] = ⟨true, true, true⟩ := by decide
+example : resolve [⟨true, true, true, true⟩, ⟨false, false, false, false⟩] = ⟨true, true, true⟩ := by decide
+example : resolve [⟨true, true, true, false⟩, ⟨true, false, false, true⟩] = ⟨true, true, false⟩ := by decide
+example : resolve [⟨true, false, true, false⟩, ⟨true, true, false, true⟩] = ⟨true, true, true⟩ := by decide
+example : resolve [mixin, ⟨true, false, false, true⟩] = ⟨true, false, false⟩ := by decide
+-- multiple inheritance: `class Leaf(SpecBase, Mixin)` with the property on the mixin to the right;
+-- a plain join class sees only the left chain's metadata; a decorated one merges both
+example : resolveMI [⟨true, false, true, true⟩] [mixin] ⟨false, false, false, false⟩ [] = ⟨true, true, true⟩ := by decide
+example : resolveMI [⟨true, true, false, false⟩] [⟨true, false, true, true⟩] ⟨false, false, false, false⟩ [] =
+    ⟨true, false, false⟩ := by decide
+example : resolveMI [⟨true, true, false, false⟩] [⟨true, false, true, true⟩] ⟨true, false, false, false⟩ [] =
+    ⟨true, true, true⟩ := by decide
+-- the hypothesis of `inherited_reads_conform` holds for the mixin layout, and the read is prepared
+example : (run exW (layoutCfg ⟨true, true, false, false, true, true⟩ [mixin, ⟨true, false, true, true⟩])
+    St.init [.read, .bump, .read]).2 = [.val 1010, .done, .val 1010] := by decide
 
 -- classproperty over three classes (0 > 1 > 2): per-subclass caches are independent…
 def exCW : CWorld Nat Int := { getter := fun k n => .ok (100 * (k + 1) + n) }
